@@ -594,10 +594,13 @@ func (st *State) addIdxSeq(t, seq string) {
 
 // ---------- out-of-subset signalling ----------
 
-type oosErr struct{ msg string }
+type oosErr struct {
+	msg        string
+	rebindable string
+}
 
 func oos(format string, args ...interface{}) oosErr {
-	return oosErr{fmt.Sprintf(format, args...)}
+	return oosErr{msg: fmt.Sprintf(format, args...)}
 }
 
 func (e oosErr) Error() string { return e.msg }
